@@ -621,7 +621,7 @@ def apply_devs(skel, pal, devs):
         elif f == "extra":
             spec["extra"] = (["x", "yy", "x", "z9"] if v == "plain" else ["a b", "'q", "", 'd"q'])[:n]
         elif f == "bonds":
-            spec["bonds"] = [[a, a + 1, 1] for a in range(n - 1)]
+            spec["bonds"] = [[a, a + 1, 1] for a in range(n - 1)] if v == "path" else []
     if not spec["stack"]:
         if spec["box"] is not None:
             spec["box"] = spec["box"][:1]
@@ -1842,6 +1842,316 @@ def nonuniq_cases():
 
 
 
+# ---- 'reuse': several set_structure() calls on one file / block object ------------------------------
+REUSE_PALETTE = {
+    # name: (skeleton, deviations)
+    "plain2": (((2,), (0,)), []),
+    "full4": (ROPT_SKEL, ROPT_VARIANTS["array_full"]),
+    "bare4_bondlist": (ROPT_SKEL, [["bonds", None, "empty"]]),  # same atoms as full4, a bond list without bonds
+    "stack3": (((1, 1), (0, 0)), [["models", None, 3], ["box", None, "ortho"], ["bonds", None, "path"]]),
+    "intra3": (((3,), (0,)), [["bonds", None, "path"], ["charge", None, "vals"]]),
+    "one_stack": (((1,), (0,)), [["stack", None, 1], ["extra", None, "awk"]]),
+    "occ3": (((1, 1, 1), (0, 0, 1)), [["occupancy", None, "vals"], ["b_factor", None, "nan"]]),
+}
+REUSE_KINDS = ("same_default", "same_named", "two_blocks", "block_object", "lazy", "compress")
+REFUSALS = ("empty_structure", "reserved_extra_field", "missing_extra_annotation", "intra_coordination_bond",
+            "empty_atom_name_with_bonds", "not_a_structure")
+
+
+def reuse_spec(name, pal_i):
+    skel, devs = REUSE_PALETTE[name]
+    return apply_devs(skel, PALETTES[pal_i], devs)
+
+
+def _classes(flavour):
+    from biotite.structure.io import pdbx
+
+    if flavour == "cif":
+        return pdbx.CIFFile, pdbx.CIFBlock
+    return pdbx.BinaryCIFFile, pdbx.BinaryCIFBlock
+
+
+def _put(target, spec, block_name=None):
+    from biotite.structure.io import pdbx
+
+    pdbx.set_structure(target, build(spec), data_block=block_name, include_bonds=spec["bonds"] is not None,
+                       extra_fields=[EXTRA_NAME] if spec["extra"] is not None else [])
+
+
+def _dump(flavour, fileobj):
+    s = io.StringIO() if flavour == "cif" else io.BytesIO()
+    fileobj.write(s)
+    return s.getvalue()
+
+
+def _load(flavour, data):
+    File, _ = _classes(flavour)
+    return File.read(io.StringIO(data) if flavour == "cif" else io.BytesIO(data))
+
+
+def _cat_bytes(flavour, cat):
+    """Serialised form of one category, for the category-by-category comparison."""
+    File, Block = _classes(flavour)
+    f = File()
+    b = Block()
+    b["c"] = cat
+    f["x"] = b
+    return _dump(flavour, f)
+
+
+def _reads(target, block_name, fields):
+    """Outcomes of a fixed set of get_structure calls as comparable JSON strings."""
+    from biotite.structure.io import pdbx
+
+    out = []
+    for model, bonds, extra in ((None, True, fields[0]), (1, False, []), (-1, True, fields[1]), (1, True, fields[0])):
+        try:
+            r = pdbx.get_structure(target, data_block=block_name, model=model, include_bonds=bonds,
+                                   extra_fields=list(extra))
+            out.append(["value", observe(r)])
+        except Exception as e:  # noqa: BLE001
+            out.append(["raised", type(e).__name__])
+    return out
+
+
+def _fields(sa, sb):
+    own = [f for f in OPT_FIELDS if f in sb["opt"]] + ([EXTRA_NAME] if sb["extra"] is not None else [])
+    both = list(own)
+    if sa is not None:
+        both += [f for f in OPT_FIELDS if f in sa["opt"] and f not in both]
+        if sa["extra"] is not None and EXTRA_NAME not in both:
+            both.append(EXTRA_NAME)
+    return own, both
+
+
+def _block_of(target, block_name):
+    from biotite.structure.io import pdbx
+
+    if isinstance(target, (pdbx.CIFFile, pdbx.BinaryCIFFile)):
+        return target[block_name] if block_name is not None else target.block
+    return target
+
+
+def reuse_compare(flavour, got_target, got_block, fresh_target, fresh_block, sa, sb, where):
+    """Differential oracle: the reused object against a fresh one that only saw the last structure.
+    Returns {failure: (expected, observed)} and the list of tolerated stale categories."""
+    fails, tolerated = {}, []
+    fields = _fields(sa, sb)
+    gb, fb = _block_of(got_target, got_block), _block_of(fresh_target, fresh_block)
+    gk, fk = list(gb.keys()), list(fb.keys())
+    stale = [k for k in gk if k not in fk]
+    for k in stale:
+        if k in ("struct_conn", "chem_comp_bond") and sb["bonds"] is None:
+            # the last structure carries no bond list at all: keeping the bond categories the object
+            # already had is the read-modify-write idiom; the statement is silent
+            tolerated.append(k)
+            continue
+        why = {"struct_conn": "last_structure_has_a_bond_list_without_inter_residue_bond",
+               "chem_comp_bond": "last_structure_has_a_bond_list_without_intra_residue_bond",
+               "cell": "last_structure_has_no_box"}.get(k, "other")
+        fails["stale_category:%s|%s" % (k, why)] = (sorted(fk), sorted(gk))
+    for k in fk:
+        if k not in gk:
+            fails["missing_category:%s" % k] = (sorted(fk), sorted(gk))
+        else:
+            a, b = _cat_bytes(flavour, fb[k]), _cat_bytes(flavour, gb[k])
+            if a != b:
+                fails["category_differs:%s" % k] = (a[:400] if isinstance(a, str) else repr(a[:200]),
+                                                    b[:400] if isinstance(b, str) else repr(b[:200]))
+    explained = {"bonds": ("struct_conn", "chem_comp_bond"), "box": ("cell",)}
+    for label, g_t, f_t in (("live", got_target, fresh_target),
+                            ("reparsed", _load(flavour, _dump(flavour, where["file"])) if where.get("file") is not None
+                             else None, where.get("fresh_reparsed"))):
+        if g_t is None or f_t is None:
+            continue
+        rg = _reads(g_t, got_block if label == "live" else where["block_in_file"], fields)
+        rf = _reads(f_t, fresh_block if label == "live" else where["fresh_block_in_file"], fields)
+        for k, (x, y) in enumerate(zip(rf, rg)):
+            if json.dumps(x, sort_keys=True, default=str) == json.dumps(y, sort_keys=True, default=str):
+                continue
+            if x[0] != y[0]:
+                field = "outcome"
+            else:
+                field = next((f for f in ("kind", "n", "depth", "annot", "coord", "bonds", "box")
+                              if json.dumps(x[1].get(f), sort_keys=True, default=str)
+                              != json.dumps(y[1].get(f), sort_keys=True, default=str)), "other")
+            if any(c in stale for c in explained.get(field, ())):
+                continue  # consequence of a stale category that is reported (or tolerated) on its own
+            fails.setdefault("read_differs:%s|%s" % (field, label), (x if x[0] == "raised" else {field: x[1].get(field)},
+                                                                   y if y[0] == "raised" else {field: y[1].get(field)}))
+    return fails, tolerated
+
+
+def reuse_case(ctx, case):
+    """case = {"fam": "reuse", "kind": k, "first": a, "second": b, "mid_read": 0/1, "pal": i}"""
+    from biotite.structure.io import pdbx
+
+    if not ctx.journal(json.dumps(case)):
+        return
+    sa, sb = reuse_spec(case["first"], case["pal"]), reuse_spec(case["second"], case["pal"])
+    kind = case["kind"]
+    found = {}
+    with warnings.catch_warnings():
+        warnings.simplefilter("ignore")
+        for flavour in (("bcif",) if kind == "compress" else ("cif", "bcif")):
+            File, Block = _classes(flavour)
+            try:
+                name_a, name_b = {"same_default": (None, None), "same_named": ("blk", "blk"), "two_blocks": ("one", "two"),
+                                  "block_object": (None, None), "lazy": (None, None), "compress": (None, None)}[kind]
+                target = Block() if kind == "block_object" else File()
+                _put(target, sa, name_a)
+                if kind == "lazy":
+                    target = _load(flavour, _dump(flavour, target))
+                if kind == "compress":
+                    target = pdbx.compress(target)
+                if case["mid_read"]:
+                    pdbx.get_structure(target, data_block=name_a, model=1, include_bonds=sa["bonds"] is not None,
+                                       extra_fields=_fields(None, sa)[0])
+                    if kind != "block_object":
+                        _dump(flavour, target)
+                _put(target, sb, name_b)
+                fresh = Block() if kind == "block_object" else File()
+                _put(fresh, sb, name_b)
+                if kind == "compress":
+                    target, fresh = pdbx.compress(target), pdbx.compress(fresh)
+                where = {}
+                if kind != "block_object":
+                    bname = name_b if name_b is not None else "structure"
+                    where = {"file": target, "block_in_file": bname, "fresh_block_in_file": bname,
+                             "fresh_reparsed": _load(flavour, _dump(flavour, fresh))}
+                fails, tolerated = reuse_compare(flavour, target, name_b, fresh, name_b, sa, sb, where)
+                if kind == "two_blocks":
+                    # the first block must still hold the first structure
+                    fa = File()
+                    _put(fa, sa, name_a)
+                    f2, _ = reuse_compare(flavour, target, name_a, fa, name_a, None, sa, {})
+                    for k, v in f2.items():
+                        fails["first_block_" + k] = v
+                    if list(target.keys()) != [name_a, name_b]:
+                        fails["block_names"] = ([name_a, name_b], list(target.keys()))
+            except Exception as e:  # noqa: BLE001
+                fails, tolerated = {"raises_%s" % type(e).__name__: ("second write and reads succeed", str(e)[:200])}, []
+            for t in tolerated:
+                ctx.count("unspecified_bond_category_kept_for_structure_without_bond_list")
+            for k, v in fails.items():
+                ent = found.setdefault(k, {"fmts": [], "e": v[0], "o": v[1]})
+                ent["fmts"].append(flavour)
+    ctx.ev(1, 1)
+    ctx.count("accepted")
+    ctx.outcome(("reuse", case["kind"], case["first"], case["second"], case["mid_read"], tuple(sorted(found))))
+    if len(ctx.samples) < 1:
+        ctx.sample(case)
+    for k, ent in found.items():
+        fl = "all" if len(ent["fmts"]) == 2 or kind == "compress" else ent["fmts"][0]
+        # a category left over from the first structure is one defect however the object is reused
+        how = "any_reuse" if k.startswith("stale_category:") else ("rewrite" if kind.startswith("same") else kind)
+        ctx.violation("reuse|%s|%s|%s" % (fl, how, k),
+                      "second set_structure() on an object that already holds a structure: %s" % k, case, ent["e"], ent["o"])
+
+
+def refusal_call(target, spec, refusal, block_name):
+    """A set_structure call that has to be refused."""
+    import biotite.structure as struc
+    from biotite.structure.io import pdbx
+
+    sp = json.loads(json.dumps(spec))
+    kw = {"data_block": block_name}
+    if refusal == "empty_structure":
+        return pdbx.set_structure(target, struc.AtomArray(0), **kw)
+    if refusal == "not_a_structure":
+        return pdbx.set_structure(target, [1, 2, 3], **kw)
+    if refusal == "reserved_extra_field":
+        return pdbx.set_structure(target, build(sp), extra_fields=["charge"], **kw)
+    if refusal == "missing_extra_annotation":
+        return pdbx.set_structure(target, build(sp), extra_fields=["no_such_annotation"], **kw)
+    n = len(sp["atoms"])
+    if refusal == "intra_coordination_bond":
+        first = sp["atoms"][0]
+        sp["atoms"] = [[first[0], first[1], "", first[3], a[4], "X%d" % k, a[6]] for k, a in enumerate(sp["atoms"])]
+        sp["bonds"] = [[0, n - 1, 8]] if n > 1 else []
+    else:
+        sp["atoms"][0][5] = ""
+        sp["bonds"] = [[0, n - 1, 1]] if n > 1 else []
+    return pdbx.set_structure(target, build(sp), include_bonds=True, **kw)
+
+
+def refuse_case(ctx, case):
+    """case = {"fam": "reuse", "kind": "refuse", "first": a, "refusal": r, "new_block": 0/1, "pal": i}:
+    a refused set_structure() must leave the object readable and unchanged."""
+    if not ctx.journal(json.dumps(case)):
+        return
+    sa = reuse_spec(case["first"], case["pal"])
+    if case["refusal"] in ("intra_coordination_bond", "empty_atom_name_with_bonds") and len(sa["atoms"]) < 2:
+        ctx.count("refuse_not_applicable")
+        return
+    found = {}
+    with warnings.catch_warnings():
+        warnings.simplefilter("ignore")
+        for flavour in ("cif", "bcif"):
+            File, _ = _classes(flavour)
+            f = File()
+            _put(f, sa, "blk")
+            before = _dump(flavour, f)
+            fields = _fields(None, sa)
+            reads_before = json.dumps(_reads(f, "blk", fields), sort_keys=True, default=str)
+            try:
+                refusal_call(f, sa, case["refusal"], "other" if case["new_block"] else "blk")
+                found.setdefault("not_refused", {"fmts": [], "e": "an exception", "o": "returned"})["fmts"].append(flavour)
+                continue
+            except Exception as e:  # noqa: BLE001
+                exc = type(e).__name__
+            try:
+                after = _dump(flavour, f)
+            except Exception as e:  # noqa: BLE001
+                found.setdefault("unserialisable_after_refusal_%s" % type(e).__name__,
+                                 {"fmts": [], "e": "file as before", "o": str(e)[:200]})["fmts"].append(flavour)
+                continue
+            explained = False
+            if after != before:
+                blocks = list(f.keys())
+                cats = list(f["blk"].keys())
+                old = _load(flavour, before)["blk"]
+                changed = sorted(set(cats) ^ set(old.keys())
+                                 | {c for c in cats if c in old and _cat_bytes(flavour, f["blk"][c]) != _cat_bytes(flavour, old[c])})
+                if blocks != ["blk"]:
+                    what = "empty_block_created_before_the_refusal"
+                elif changed and set(changed) <= {"struct_conn", "chem_comp_bond"}:
+                    what = "bond_categories_written_before_the_refusal"
+                    explained = True
+                else:
+                    what = "changed:" + "+".join(changed)
+                found.setdefault("file_changed_by_refused_call:%s" % what,
+                                 {"fmts": [], "e": {"blocks": ["blk"], "raised": exc},
+                                  "o": {"blocks": blocks, "categories": cats, "changed": changed}})["fmts"].append(flavour)
+            reads_after = json.dumps(_reads(f, "blk", fields), sort_keys=True, default=str)
+            if reads_after != reads_before and not explained:
+                found.setdefault("structure_changed_by_refused_call",
+                                 {"fmts": [], "e": reads_before[:300], "o": reads_after[:300]})["fmts"].append(flavour)
+    ctx.ev(1, 1)
+    ctx.count("refused")
+    ctx.outcome(("refuse", case["first"], case["refusal"], case["new_block"], tuple(sorted(found))))
+    for k, ent in found.items():
+        fl = "all" if len(ent["fmts"]) == 2 else ent["fmts"][0]
+        cls = case["refusal"] if k in ("not_refused", "structure_changed_by_refused_call") or k.startswith(
+            "file_changed_by_refused_call:changed") else "-"
+        ctx.violation("reuse|%s|refuse|%s|%s,%s" % (fl, k, cls, "new_block" if case["new_block"] else "same_block"),
+                      "refused set_structure() on an object that holds a structure: %s" % k, case, ent["e"], ent["o"])
+
+
+def reuse_cases(tier, seed):
+    pal = seed % len(PALETTES)
+    names = list(REUSE_PALETTE)
+    for kind in REUSE_KINDS:
+        for a in names:
+            for b in names:
+                for mid in (0, 1):
+                    yield {"fam": "reuse", "kind": kind, "first": a, "second": b, "mid_read": mid, "pal": pal}
+    for a in names:
+        for r in REFUSALS:
+            for nb in (0, 1):
+                yield {"fam": "reuse", "kind": "refuse", "first": a, "refusal": r, "new_block": nb, "pal": pal}
+
+
 # ---- 'big': both sides of every size switch of the reader / writer -----------------------------
 # convert.py _find_matches(): (covalent struct_conn rows) x (atoms of the model) <= 4 000 000 -> dense
 # comparison matrix, above -> dictionary lookup.  Other count-dependent branches (one-row categories
@@ -2019,6 +2329,10 @@ def shards(tier, seed):
         if tier == "thorough":
             out.append({"fam": "ropts", "variant": v, "pal": (pal_i + 1) % len(PALETTES), "w": 9000})
     out.append({"fam": "nonuniq", "w": 500})
+    nre = sum(1 for _ in reuse_cases(tier, seed))
+    parts = _chunks(nre, 100)
+    for p in range(parts):
+        out.append({"fam": "reuse", "part": p, "parts": parts, "w": 30 * nre // parts})
     for k, c in enumerate(big_cases(tier)):
         out.append({"fam": "big", "index": k, "w": 40000 if c["n_res"] < 10000 else 200000})
     out.sort(key=lambda s: -s.get("w", 0))
@@ -2052,6 +2366,10 @@ def run_shard(shard, ctx):
             nonuniq_case(ctx, case)
     elif fam == "big":
         big_case(ctx, big_cases(ctx.tier)[shard["index"]])
+    elif fam == "reuse":
+        for idx, case in enumerate(reuse_cases(ctx.tier, ctx.seed)):
+            if idx % shard["parts"] == shard["part"]:
+                (refuse_case if case["kind"] == "refuse" else reuse_case)(ctx, case)
     else:
         raise ValueError(shard)
 
@@ -2077,6 +2395,8 @@ def replay(case, ctx):
         nonuniq_case(ctx, case)
     elif fam == "big":
         big_case(ctx, case)
+    elif fam == "reuse":
+        (refuse_case if case["kind"] == "refuse" else reuse_case)(ctx, case)
     else:
         raise ValueError(case)
 
